@@ -579,7 +579,9 @@ func init() {
 			h.Blocks = append(h.Blocks, emptyBlocks(6)...)
 			return h
 		}, Menu: []sim.TxSpec{stk("U1", "V1", "1R")}, WithEnv: true, NAppend: 1, MaxD: 2, MaxDTh: 2, OnlyBlocks: []int{253, 254, 255, 256, 257},
-			Core: func(ss *slotSet, s slot, ch int) bool { return s.kind == slotAbsent || (s.kind == slotEvidence && ch == 1) }, Restarts: []int64{255}})
+			Core: func(ss *slotSet, s slot, ch int) bool {
+				return s.kind == slotAbsent || (s.kind == slotEvidence && ch == 1)
+			}, Restarts: []int64{255}})
 		return &modelCheck{id: "C14", owners: map[string]bool{"C14": true}, families: fams, extra: slashFrame,
 			meta: modelMeta("deviation-bounded exhaustive exploration of evidence / missed-signature sequences with reference model (amounts) and per-block frame condition",
 				"C14 families: a validator with stakes of power 10,1,2,3 (so that rounding and forfeiture fire) and another with 8,5, an open two-option proposal with the offenders' votes, slash ratio in {1,33,50,100}, (window,minimum) in {(3,2),(2,2),(4,1)}; per-block evidence entry from {V1, unknown address, V2, V1 twice, V1+V2, a non-validator} and per-block missed-signature pattern, in every pair of blocks (thorough: triples); two families whose base history has a validator miss signatures on both sides of a node restart (restart after height 4, 5 or 6; window/minimum (3,2) and (4,2)). "+
